@@ -1,6 +1,7 @@
 #![allow(dead_code)]
 mod ast;
 mod c01;
+mod c02;
 mod c03;
 mod c13;
 mod evidence;
@@ -38,6 +39,15 @@ fn main() {
         }
         i += 1;
     }
+    if id == "record" {
+        let rules = std::fs::read_to_string(&args[2]).unwrap();
+        let data = std::fs::read_to_string(&args[3]).unwrap();
+        match impl_::lib_raw(&rules, &data, args.len() <= 4) {
+            Ok(Ok(s)) => println!("{}", s),
+            other => println!("{:?}", other),
+        }
+        return;
+    }
     if id == "eval" {
         let rules = std::fs::read_to_string(&args[2]).unwrap();
         let data = std::fs::read_to_string(&args[3]).unwrap();
@@ -52,6 +62,7 @@ fn main() {
     }
     let code = match id {
         "C01" => c01::run(&tier),
+        "C02" => c02::run(&tier),
         "C03" => c03::run(&tier),
         "C13" => c13::run(&tier),
         _ => {
